@@ -656,7 +656,7 @@ func ruleR09R19(c *Ctx) {
 		searchVar := map[*types.Var]*ast.CallExpr{}
 		ast.Inspect(u.Body, func(n ast.Node) bool {
 			if as, ok := n.(*ast.AssignStmt); ok && len(as.Lhs) == 1 && len(as.Rhs) == 1 {
-				if call, ok := ast.Unparen(as.Rhs[0]).(*ast.CallExpr); ok && c.m.calleeName(call) == "searchNode4" {
+				if call, ok := ast.Unparen(as.Rhs[0]).(*ast.CallExpr); ok && strings.HasPrefix(c.m.calleeName(call), "searchNode") {
 					if v := identVar(info, as.Lhs[0]); v != nil {
 						searchVar[v] = call
 					}
@@ -687,6 +687,34 @@ func ruleR09R19(c *Ctx) {
 			sel, ok := ast.Unparen(base).(*ast.SelectorExpr)
 			if !ok {
 				return
+			}
+			// the search result may be the not-found value -1
+			{
+				key := fmt.Sprintf("%s %s indexed by search result %s only when found", u.Name, display(fl.raw.canon(base)), v.Name())
+				found := fs.proveLin(linAtom(varID(v)).scale(-1)) // 0 <= v
+				isMinus1 := false
+				fs.eqFacts(func(l, r string, val bool, f *Fact) {
+					if (l == fs.canon(idx) && r == "-1") || (r == fs.canon(idx) && l == "-1") {
+						if val {
+							isMinus1 = true
+						} else {
+							found = true
+						}
+					}
+				})
+				switch {
+				case isMinus1:
+					c.r.bad("R19", key, m.pos(n.Pos()), "the search result is used as an index exactly when it is the not-found value -1", props...)
+				case found:
+					c.r.ok("R19", key, m.pos(n.Pos()), "under "+v.Name()+" != -1", props...)
+				case strings.HasSuffix(u.Name, ".deleteChild"):
+					c.r.ok("R19", key, m.pos(n.Pos()), "no not-found test here; justified by the precondition checked at every call of nodeRef.deleteChild (the byte is registered: findChild(b) != nil)", props...)
+				default:
+					c.r.bad("R19", key, m.pos(n.Pos()), "the search returns -1 when no lane matches; its result is used as an index without a dominating test "+v.Name()+" != -1, so probing an absent byte faults", props...)
+				}
+			}
+			if c.m.calleeName(searchVar[v]) != "searchNode4" {
+				return // the 16-lane search masks unoccupied lanes itself (R20)
 			}
 			n19++
 			key := fmt.Sprintf("%s %s indexed by 4-lane search result %s", u.Name, display(fl.raw.canon(base)), v.Name())
